@@ -88,6 +88,10 @@ func (t *brokerPublishTransactionBase) resend(pktx interface{}) error {
 	t.log.Debug("Resend.")
 	switch pkt := pktx.(type) {
 	case snPkts.Packet:
+		// The packet is already waiting in the buffer of a sleeping client.
+		if t.handler.state.Get() == util.StateAsleep {
+			return nil
+		}
 		// Set DUP if applicable.
 		if dupPkt, ok := pkt.(snPkts.PacketWithDUP); ok {
 			dupPkt.SetDUP(true)
